@@ -16,6 +16,7 @@
 #include <stdio.h>
 #include <stdlib.h>
 #include <string.h>
+#include <sys/resource.h>
 #include <sys/stat.h>
 #include <unistd.h>
 
@@ -222,6 +223,7 @@ main(int argc, char *argv[])
 	uint64_t sched_seed = 1;
 	int strategy = SIM_STRAT_RANDOM, pct = 2;
 	char *explicit_list = NULL;
+	long nofile = 0;
 	char *line = NULL;
 	size_t cap = 0;
 	sim_seams_init(argv[3]);
@@ -254,6 +256,7 @@ main(int argc, char *argv[])
 			else if (!strcmp(k, "strategy")) strategy = atoi(v);
 			else if (!strcmp(k, "pct_depth")) pct = atoi(v);
 			else if (!strcmp(k, "sched")) explicit_list = strdup(v);
+			else if (!strcmp(k, "nofile")) nofile = atol(v);
 			else { fprintf(stderr, "rtsim: unknown knob %s\n", k); return 2; }
 		} else if (strcmp(tok[0], "thread") == 0) {
 			int i = atoi(tok[1]);
@@ -284,6 +287,15 @@ main(int argc, char *argv[])
 	if (chdir(root) != 0) {
 		perror("chdir root");
 		return 2;
+	}
+	if (nofile > 0) {
+		/* a small descriptor table stands in for a long process life: whatever the library
+		 * keeps per finished thread runs out after tens of threads instead of thousands.
+		 * sim_finish() lifts the limit again before it writes the history. */
+		struct rlimit rl;
+		getrlimit(RLIMIT_NOFILE, &rl);
+		rl.rlim_cur = (rlim_t) nofile;
+		setrlimit(RLIMIT_NOFILE, &rl);
 	}
 	sim_sched_init(nthreads, sched_seed, strategy, explicit_list, pct);
 	pthread_t tid[SIM_MAX_THREADS];
